@@ -19,7 +19,11 @@ def Reach (g : Cfg) (s : S) : Prop := ∃ ops, s = run g init ops
 
 theorem reach_inv {g : Cfg} {s : S} (h : Reach g s) : InvD g s ∧ InvA g s := by
   obtain ⟨ops, rfl⟩ := h
-  exact inv_run g ops init (invD_init g) (invA_init g)
+  exact inv_run g ops init (invD_init g) (invA_init g) invT_init
+
+theorem reach_invT {g : Cfg} {s : S} (h : Reach g s) : InvT s := by
+  obtain ⟨ops, rfl⟩ := h
+  exact invT_run g ops init invT_init
 
 theorem reach_step {g : Cfg} {s : S} (h : Reach g s) (op : Op) : Reach g (step g s op) := by
   obtain ⟨ops, rfl⟩ := h
